@@ -66,6 +66,13 @@ class StandIn:
                 msg = self.check(reg, case)
             except rt.ContractViolation as e:
                 msg = str(e)
+            except Exception as e:  # noqa: BLE001
+                # the real code raised on an admissible input of the scope: the specified result was not produced
+                import traceback
+                tb = traceback.extract_tb(e.__traceback__)
+                where = next((f"{f.filename.split('black_it/')[-1]}:{f.lineno}" for f in reversed(tb)
+                              if "black_it/" in f.filename), "?")
+                msg = f"unexpected {type(e).__name__}: {e} (raised at {where})"
             if msg:
                 msg = str(msg)
                 tag = msg[1:msg.index("]")] if msg.startswith("[") and "]" in msg else ""
@@ -83,6 +90,8 @@ class StandIn:
             return self.check(reg, case)
         except rt.ContractViolation as e:
             return str(e)
+        except Exception as e:  # noqa: BLE001
+            return f"unexpected {type(e).__name__}: {e}"
 
 
 def contract_check(key, build=None):
@@ -654,3 +663,5 @@ for _c in ["BoundsNotOfSizeTwoError", "BoundsOfDifferentLengthError", "BadPrecis
            "SameLowerAndUpperBoundError", "LowerBoundGreaterThanUpperBoundError", "PrecisionZeroError",
            "PrecisionGreaterThanBoundsRangeError"]:
     REPLAY[f"black_it/search_space.py::{_c}.__init__"] = None
+
+from runtime import scopes_e2e  # noqa: E402,F401  (registers the Calibrator-level stand-ins)
